@@ -73,40 +73,11 @@ theorem fanOut_fail_unchanged {α} (f : α → α × Ret) (xs : List α)
 
 /-! ### Multistream encoder -/
 
-/-- What the streams of a multistream encoder have in common: the application; and no stream has
-    coded a frame before the first stream has (`firstHead`: a stream starved of bits by the rate
-    allocation keeps `first = 1`, but streams are served in order — monitored after every
-    `opus_multistream_encode` by suite `ctl-rand`); `layout` is the creation order: coupled (stereo)
-    streams first. -/
+/-- What the streams of a multistream encoder have in common: each satisfies `EncInv`, and
+    `layout` is the creation order — coupled (stereo) streams first. -/
 structure MsInv (s : MsEncSt) : Prop where
   streams : ∀ e ∈ s.streams, EncInv e
-  app : ∀ e ∈ s.streams, ∀ e' ∈ s.streams, e.application = e'.application
-  firstHead : ∀ e0 es, s.streams = e0 :: es → ∀ e ∈ s.streams, e.first = false → e0.first = false
   layout : s.nbCoupled < s.nbStreams ∨ ∀ e ∈ s.streams, e.channels = 2
-
-/-- If some stream refuses a fanned-out request that reaches the loop, the first stream refuses it. -/
-theorem ms_illegal_head {s : MsEncSt} (hi : MsInv s) (k : EncSetK) (v : Int)
-    (hk : ¬ (k = .forceChannels ∧ v = 2 ∧ s.nbCoupled < s.nbStreams)) (e0 : EncSt) (es : List EncSt)
-    (hs : s.streams = e0 :: es) : (∃ e ∈ s.streams, ¬ EncLegal e k v) → ¬ EncLegal e0 k v := by
-  rintro ⟨e, he, hill⟩
-  have he0 : e0 ∈ s.streams := by rw [hs]; exact List.mem_cons_self
-  have happ := hi.app e he e0 he0
-  have hfirst := hi.firstHead e0 es hs e he
-  have hc := (hi.streams e he).1.ch
-  have hc' := (hi.streams e0 he0).1.ch
-  cases k <;> simp only [EncLegal] at hill ⊢ <;> try exact hill
-  · -- application
-    intro ⟨h1, h2⟩
-    apply hill
-    refine ⟨h1, fun hf => ?_⟩
-    rw [happ]; exact h2 (hfirst hf)
-  · -- forceChannels
-    by_cases hv : v = 2
-    · have : ¬ s.nbCoupled < s.nbStreams := fun h => hk ⟨rfl, hv, h⟩
-      rcases hi.layout with h | h
-      · exact absurd h this
-      · rw [h e he] at hill; rw [h e0 he0]; exact hill
-    · omega
 
 theorem encCtl_set_code (e : EncSt) (k : EncSetK) (v : Int) : (encCtl e (.set k v)).2.code ≠ 0 ↔ ¬ EncLegal e k v := by
   by_cases h : EncLegal e k v
@@ -114,38 +85,152 @@ theorem encCtl_set_code (e : EncSt) (k : EncSetK) (v : Int) : (encCtl e (.set k 
     rw [h2]; simp [Ret.ok, h]
   · rw [encCtl_set_reject e k v h]; simp [Ret.err, Err.code, h]
 
-/-- **A multistream ctl that reports an error has changed nothing**, for every request
-    (after the repair a0f32f9c of OPUS_SET_FORCE_CHANNELS). -/
+/-- Streams agree on the legality of every fanned-out request other than OPUS_SET_APPLICATION
+    (whose legality depends on `first`, hence the roll-back in the code). -/
+theorem ms_legal_uniform {s : MsEncSt} (hi : MsInv s) (k : EncSetK) (v : Int) (hka : k ≠ .application)
+    (hk : ¬ (k = .forceChannels ∧ v = 2 ∧ s.nbCoupled < s.nbStreams)) :
+    ∀ e ∈ s.streams, ∀ e' ∈ s.streams, (EncLegal e k v ↔ EncLegal e' k v) := by
+  intro e he e' he'
+  have hc := (hi.streams e he).1.ch
+  have hc' := (hi.streams e' he').1.ch
+  cases k <;> simp only [EncLegal] <;> try rfl
+  · exact absurd rfl hka
+  · by_cases hv : v = 2
+    · have : ¬ s.nbCoupled < s.nbStreams := fun h => hk ⟨rfl, hv, h⟩
+      rcases hi.layout with h | h
+      · exact absurd h this
+      · rw [h e he, h e' he']
+    · omega
+
+/-! #### The roll-back fan-out of OPUS_SET_APPLICATION -/
+
+/-- A stream that accepted a new application accepts the old one back and is then exactly what
+    it was. -/
+theorem app_rollback {e : EncSt} (hi : EncInv e) (v : Int) (h : (encCtl e (.set .application v)).2.code = 0) :
+    (encCtl (encCtl e (.set .application v)).1 (.set .application e.application)).1 = e := by
+  have hl : EncLegal e .application v := by
+    apply Classical.byContradiction; intro hn
+    exact (encCtl_set_code e .application v).mpr hn h
+  have happ := hi.1.app
+  simp only [EncLegal] at hl
+  obtain ⟨s', h1, h2⟩ := encCtl_set_ok e .application v (by simpa [EncLegal] using hl)
+  rw [h2]
+  simp only [encSet] at h1
+  obtain ⟨_, rfl⟩ := ite_none_some h1
+  have hl2 : EncLegal { e with application := v } .application e.application := by
+    simp only [EncLegal]
+    refine ⟨happ, fun hf => ?_⟩
+    exact (hl.2 hf).symm ▸ rfl
+  obtain ⟨s2, h3, h4⟩ := encCtl_set_ok _ .application e.application hl2
+  rw [h4]
+  simp only [encSet] at h3
+  obtain ⟨_, rfl⟩ := ite_none_some h3
+  rfl
+
+theorem fanOutApp_all_ok (v : Int) (xs : List EncSt) (h : ∀ e ∈ xs, (encCtl e (.set .application v)).2.code = 0) :
+    (fanOutApp v xs).2.code = 0 ∧ (fanOutApp v xs).1 = xs.map (fun e => (encCtl e (.set .application v)).1) := by
+  induction xs with
+  | nil => exact ⟨rfl, rfl⟩
+  | cons e es ih =>
+    have he := h e List.mem_cons_self
+    have ih' := ih (fun x hx => h x (List.mem_cons_of_mem _ hx))
+    simp only [fanOutApp, he, ne_eq, not_true_eq_false, ite_false, ih'.1, List.map_cons]
+    exact ⟨trivial, by rw [ih'.2]⟩
+
+theorem fanOutApp_ok_all (v : Int) (xs : List EncSt) (h : (fanOutApp v xs).2.code = 0) :
+    ∀ e ∈ xs, (encCtl e (.set .application v)).2.code = 0 := by
+  induction xs with
+  | nil => intro e he; cases he
+  | cons e es ih =>
+    by_cases he : (encCtl e (.set .application v)).2.code ≠ 0
+    · simp only [fanOutApp] at h; rw [if_pos he] at h; exact absurd h he
+    · simp only [fanOutApp] at h; rw [if_neg he] at h
+      by_cases ht : (fanOutApp v es).2.code ≠ 0
+      · rw [if_pos ht] at h; exact absurd h ht
+      · rw [if_neg ht] at h
+        intro x hx
+        rcases List.mem_cons.mp hx with rfl | hx
+        · exact Decidable.not_not.mp he
+        · exact ih (Decidable.not_not.mp ht) x hx
+
+/-- **A refused OPUS_SET_APPLICATION fan-out leaves every stream as it was** (fix 9ffbe457),
+    whichever stream refuses. -/
+theorem fanOutApp_fail_unchanged (v : Int) (xs : List EncSt) (hi : ∀ e ∈ xs, EncInv e)
+    (h : (fanOutApp v xs).2.code ≠ 0) : (fanOutApp v xs).1 = xs := by
+  induction xs with
+  | nil => simp [fanOutApp, Ret.ok] at h
+  | cons e es ih =>
+    by_cases he : (encCtl e (.set .application v)).2.code ≠ 0
+    · simp only [fanOutApp]; rw [if_pos he]
+      have := (encCtl_set_code e .application v).mp he
+      rw [encCtl_set_reject e .application v this]
+    · simp only [fanOutApp] at h ⊢
+      rw [if_neg he] at h ⊢
+      by_cases ht : (fanOutApp v es).2.code ≠ 0
+      · rw [if_pos ht]
+        rw [ih (fun x hx => hi x (List.mem_cons_of_mem _ hx)) ht,
+            app_rollback (hi e List.mem_cons_self) v (Decidable.not_not.mp he)]
+      · rw [if_neg ht] at h; exact absurd h ht
+
+/-- The fan-out `msEncCtl` uses for a forwarded setter. -/
+def msFan (k : EncSetK) (v : Int) (xs : List EncSt) : List EncSt × Ret :=
+  if k = .application then fanOutApp v xs else fanOut (fun e => encCtl e (.set k v)) xs
+
+theorem msEncCtl_fwd (s : MsEncSt) (k : EncSetK) (v : Int) (hk : msEncFwdSet k = true)
+    (hr : ¬ (k = .forceChannels ∧ v = 2 ∧ s.nbCoupled < s.nbStreams)) :
+    msEncCtl s (.set k v) = ({ s with streams := (msFan k v s.streams).1 }, (msFan k v s.streams).2) := by
+  unfold msFan
+  cases k <;> simp only [msEncFwdSet, Bool.false_eq_true] at hk <;> simp only [msEncCtl, msEncFwdSet, ite_true]
+  case forceChannels =>
+    have : ¬ (v = 2 ∧ s.nbCoupled < s.nbStreams) := fun h => hr ⟨rfl, h.1, h.2⟩
+    simp [this]
+  all_goals simp
+
+theorem msFan_all_ok (k : EncSetK) (v : Int) (xs : List EncSt) (h : ∀ e ∈ xs, (encCtl e (.set k v)).2.code = 0) :
+    (msFan k v xs).2.code = 0 ∧ (msFan k v xs).1 = xs.map (fun e => (encCtl e (.set k v)).1) := by
+  unfold msFan
+  split
+  · rename_i hk; subst hk; exact fanOutApp_all_ok v xs h
+  · exact fanOut_all_ok _ xs h
+
+theorem msFan_ok_all (k : EncSetK) (v : Int) (xs : List EncSt) (h : (msFan k v xs).2.code = 0) :
+    ∀ e ∈ xs, (encCtl e (.set k v)).2.code = 0 := by
+  unfold msFan at h
+  split at h
+  · rename_i hk; subst hk; exact fanOutApp_ok_all v xs h
+  · exact fanOut_ok_all _ xs h
+
+theorem msFan_fail_unchanged {s : MsEncSt} (hi : MsInv s) (k : EncSetK) (v : Int)
+    (hr : ¬ (k = .forceChannels ∧ v = 2 ∧ s.nbCoupled < s.nbStreams))
+    (h : (msFan k v s.streams).2.code ≠ 0) : (msFan k v s.streams).1 = s.streams := by
+  unfold msFan at h ⊢
+  split
+  · rename_i hk
+    rw [if_pos hk] at h
+    exact fanOutApp_fail_unchanged v s.streams hi.streams h
+  · rename_i hk
+    rw [if_neg hk] at h
+    exact fanOut_fail_unchanged (fun e => encCtl e (.set k v)) s.streams
+      (fun e _ hc => by
+        have := (encCtl_set_code e k v).mp hc
+        rw [encCtl_set_reject e k v this])
+      (fun e he e' he' => by
+        rw [encCtl_set_code, encCtl_set_code, ms_legal_uniform hi k v hk hr e he e' he'])
+      h
+
+/-- **A multistream ctl that reports an error has changed nothing**, for every request and every
+    state satisfying `MsInv` (after the repairs a0f32f9c of OPUS_SET_FORCE_CHANNELS and 9ffbe457 of
+    OPUS_SET_APPLICATION). -/
 theorem msEncCtl_error_unchanged {s : MsEncSt} (hi : MsInv s) (r : MsEncReq) (h : (msEncCtl s r).2.code ≠ 0) :
     (msEncCtl s r).1 = s := by
-  have hfan : ∀ (k : EncSetK) (v : Int), msEncFwdSet k = true →
-      (msEncCtl s (.set k v)).2.code ≠ 0 → (msEncCtl s (.set k v)).1 = s := by
-    intro k v hk hcode
-    by_cases hr : k = .forceChannels ∧ v = 2 ∧ s.nbCoupled < s.nbStreams
-    · obtain ⟨rfl, hv, hlt⟩ := hr
-      simp [msEncCtl, msEncFwdSet, hv, hlt]
-    · have hgen : msEncCtl s (.set k v) =
-          ({ s with streams := (fanOut (fun e => encCtl e (.set k v)) s.streams).1 },
-           (fanOut (fun e => encCtl e (.set k v)) s.streams).2) := by
-        cases k <;> simp only [msEncFwdSet, Bool.false_eq_true] at hk <;> simp only [msEncCtl, msEncFwdSet, ite_true]
-        case forceChannels =>
-          have : ¬ (v = 2 ∧ s.nbCoupled < s.nbStreams) := fun h => hr ⟨rfl, h.1, h.2⟩
-          simp [this]
-        all_goals simp
-      rw [hgen] at hcode ⊢
-      have := fanOut_fail_unchanged' (fun e => encCtl e (.set k v)) s.streams
-        (fun e _ hc => by
-          have := (encCtl_set_code e k v).mp hc
-          rw [encCtl_set_reject e k v this])
-        (fun e0 es hs hex => by
-          obtain ⟨e, he, hc⟩ := hex
-          exact (encCtl_set_code e0 k v).mpr (ms_illegal_head hi k v hr e0 es hs ⟨e, he, (encCtl_set_code e k v).mp hc⟩))
-        hcode
-      simp only [this]
   cases r with
   | set k v =>
     by_cases hk : msEncFwdSet k = true
-    · exact hfan k v hk h
+    · by_cases hr : k = .forceChannels ∧ v = 2 ∧ s.nbCoupled < s.nbStreams
+      · obtain ⟨rfl, hv, hlt⟩ := hr
+        simp [msEncCtl, msEncFwdSet, hv, hlt]
+      · rw [msEncCtl_fwd s k v hk hr] at h ⊢
+        simp only [msFan_fail_unchanged hi k v hr h]
     · cases k <;> simp only [msEncFwdSet, not_true_eq_false] at hk <;> simp only [msEncCtl] at h ⊢
       · -- bitrate
         split
@@ -180,20 +265,12 @@ theorem msEncCtl_set_all {s : MsEncSt} (k : EncSetK) (v : Int) (hk : msEncFwdSet
     (msEncCtl s (.set k v)).1 = { s with streams := s.streams.map (fun e => (encCtl e (.set k v)).1) } ∧
     (∀ e' ∈ (msEncCtl s (.set k v)).1.streams, ∀ g, readGetter k = some g → ∃ e ∈ s.streams,
         encGetVal e' g = readBack e k v) := by
-  have hgen : msEncCtl s (.set k v) =
-      ({ s with streams := (fanOut (fun e => encCtl e (.set k v)) s.streams).1 },
-       (fanOut (fun e => encCtl e (.set k v)) s.streams).2) := by
-    cases k <;> simp only [msEncFwdSet, Bool.false_eq_true] at hk <;> simp only [msEncCtl, msEncFwdSet, ite_true]
-    case forceChannels =>
-      have : ¬ (v = 2 ∧ s.nbCoupled < s.nbStreams) := fun h => hr ⟨rfl, h.1, h.2⟩
-      simp [this]
-    all_goals simp
-  have hall := fanOut_all_ok (fun e => encCtl e (.set k v)) s.streams (fun e he => by
+  have hall := msFan_all_ok k v s.streams (fun e he => by
     have := encCtl_set_code e k v
     by_cases hc : (encCtl e (.set k v)).2.code = 0
     · exact hc
     · exact absurd (hleg e he) (this.mp hc))
-  rw [hgen]
+  rw [msEncCtl_fwd s k v hk hr]
   refine ⟨hall.1, by rw [hall.2], ?_⟩
   intro e' he' g hg
   simp only [hall.2, List.mem_map] at he'
@@ -251,45 +328,19 @@ theorem encSet_first_app {e s' : EncSt} {k : EncSetK} {v : Int} (h : encSet e k 
 
 /-- A multistream request preserves `MsInv`. -/
 theorem msEncCtl_inv {s : MsEncSt} (hi : MsInv s) (r : MsEncReq) : MsInv (msEncCtl s r).1 := by
-  -- a fan-out either fails (then nothing changed, `msEncCtl_error_unchanged`) or maps every stream
-  have key : ∀ (q : EncReq), (fanOut (fun e => encCtl e q) s.streams).2.code = 0 →
-      (∀ e ∈ s.streams, ∀ e' ∈ s.streams, (encCtl e q).1.application = (encCtl e' q).1.application) →
-      (∀ e ∈ s.streams, ∀ e' ∈ s.streams, ((encCtl e q).1.first = false → e.first = false) ∧
-          (e'.first = false → (encCtl e' q).1.first = false) ∨
-          ((encCtl e q).1.first = true ∧ (encCtl e' q).1.first = true)) →
-      MsInv { s with streams := (fanOut (fun e => encCtl e q) s.streams).1 } := by
-    intro q hc happ hfirst
-    have hall := fanOut_ok_all (fun e => encCtl e q) s.streams hc
-    have hmap := (fanOut_all_ok (fun e => encCtl e q) s.streams hall).2
-    refine ⟨?_, ?_, ?_, ?_⟩
+  -- a successful fan-out maps every stream through one single-stream request
+  have ofMap : ∀ (q : EncReq), MsInv { s with streams := s.streams.map (fun e => (encCtl e q).1) } := by
+    intro q
+    refine ⟨?_, ?_⟩
     · intro e' he'
-      simp only [hmap, List.mem_map] at he'
+      simp only [List.mem_map] at he'
       obtain ⟨e, he, rfl⟩ := he'
       exact encCtl_inv (hi.streams e he) q
-    · intro a ha b hb
-      simp only [hmap, List.mem_map] at ha hb
-      obtain ⟨e, he, rfl⟩ := ha
-      obtain ⟨e', he', rfl⟩ := hb
-      exact happ e he e' he'
-    · intro a0 as hs a ha hf
-      simp only [hmap] at hs ha
-      cases hst : s.streams with
-      | nil => rw [hst] at ha; simp at ha
-      | cons e0 es =>
-        rw [hst] at hs
-        simp only [List.map_cons, List.cons.injEq] at hs
-        obtain ⟨rfl, _⟩ := hs
-        simp only [List.mem_map] at ha
-        obtain ⟨e, he, rfl⟩ := ha
-        have he0 : e0 ∈ s.streams := by rw [hst]; exact List.mem_cons_self
-        rcases hfirst e he e0 he0 with ⟨h1, h2⟩ | ⟨h1, _⟩
-        · exact h2 (hi.firstHead e0 es hst e he (h1 hf))
-        · rw [h1] at hf; cases hf
     · rcases hi.layout with h | h
       · exact Or.inl h
       · right
         intro e' he'
-        simp only [hmap, List.mem_map] at he'
+        simp only [List.mem_map] at he'
         obtain ⟨e, he, rfl⟩ := he'
         rw [encCtl_channels q e]; exact h e he
   by_cases hcode : (msEncCtl s r).2.code ≠ 0
@@ -302,34 +353,10 @@ theorem msEncCtl_inv {s : MsEncSt} (hi : MsInv s) (r : MsEncReq) : MsInv (msEncC
       · obtain ⟨rfl, hv, hlt⟩ := hr
         have : (msEncCtl s (.set .forceChannels v)).1 = s := by simp [msEncCtl, msEncFwdSet, hv, hlt]
         rw [this]; exact hi
-      · have hgen : msEncCtl s (.set k v) =
-            ({ s with streams := (fanOut (fun e => encCtl e (.set k v)) s.streams).1 },
-             (fanOut (fun e => encCtl e (.set k v)) s.streams).2) := by
-          cases k <;> simp only [msEncFwdSet, Bool.false_eq_true] at hk <;> simp only [msEncCtl, msEncFwdSet, ite_true]
-          case forceChannels =>
-            have : ¬ (v = 2 ∧ s.nbCoupled < s.nbStreams) := fun h => hr ⟨rfl, h.1, h.2⟩
-            simp [this]
-          all_goals simp
-        rw [hgen] at hcode ⊢
-        have hall := fanOut_ok_all (fun e => encCtl e (.set k v)) s.streams hcode
-        have hsome : ∀ e ∈ s.streams, ∃ s', encSet e k v = some s' ∧ (encCtl e (.set k v)).1 = s' := by
-          intro e he
-          have hl : EncLegal e k v := by
-            apply Classical.byContradiction
-            intro hn; exact (encCtl_set_code e k v).mpr hn (hall e he)
-          obtain ⟨s', h1, h2⟩ := encCtl_set_ok e k v hl
-          exact ⟨s', h1, by rw [h2]⟩
-        apply key (.set k v) hcode
-        · intro e he e' he'
-          obtain ⟨s1, h1, e1⟩ := hsome e he
-          obtain ⟨s2, h2, e2⟩ := hsome e' he'
-          rw [e1, e2, (encSet_first_app h1).2, (encSet_first_app h2).2, hi.app e he e' he']
-        · intro e he e' he'
-          obtain ⟨s1, h1, e1⟩ := hsome e he
-          obtain ⟨s2, h2, e2⟩ := hsome e' he'
-          left
-          rw [e1, e2, (encSet_first_app h1).1, (encSet_first_app h2).1]
-          exact ⟨id, id⟩
+      · rw [msEncCtl_fwd s k v hk hr] at hcode ⊢
+        have hall := msFan_ok_all k v s.streams hcode
+        rw [(msFan_all_ok k v s.streams hall).2]
+        exact ofMap (.set k v)
     · have : (msEncCtl s (.set k v)).1 = s ∨ ∃ b, (msEncCtl s (.set k v)).1 = { s with bitrateBps := b } ∨
           (msEncCtl s (.set k v)).1 = { s with variableDuration := b } := by
         cases k <;> simp only [msEncFwdSet, not_true_eq_false] at hk <;> simp only [msEncCtl]
@@ -343,18 +370,16 @@ theorem msEncCtl_inv {s : MsEncSt} (hi : MsInv s) (r : MsEncReq) : MsInv (msEncC
           · exact Or.inr ⟨_, Or.inr rfl⟩
           · exact Or.inl rfl
         · exact Or.inl rfl
-      rcases this with h | ⟨b, h | h⟩ <;> rw [h] <;> exact ⟨hi.streams, hi.app, hi.firstHead, hi.layout⟩
+      rcases this with h | ⟨b, h | h⟩ <;> rw [h] <;> exact ⟨hi.streams, hi.layout⟩
   | get k nn =>
     have : (msEncCtl s (.get k nn)).1 = s := by
       cases k <;> simp only [msEncCtl] <;> (try split) <;> (try split) <;> rfl
     rw [this]; exact hi
   | resetState =>
     simp only [msEncCtl] at hcode ⊢
-    apply key .resetState hcode
-    · intro e he e' he'
-      exact hi.app e he e' he'
-    · intro e _ e' _
-      right; exact ⟨rfl, rfl⟩
+    have hall := fanOut_ok_all (fun e => encCtl e .resetState) s.streams hcode
+    rw [(fanOut_all_ok (fun e => encCtl e .resetState) s.streams hall).2]
+    exact ofMap .resetState
   | getEncoderState id nn =>
     have : (msEncCtl s (.getEncoderState id nn)).1 = s := by
       simp only [msEncCtl]; split
@@ -398,7 +423,7 @@ theorem msEncInit_inv {fs channels streams coupled : Int} {mapping : List Nat} {
               split
               · right; rfl
               · left; rfl
-            refine ⟨?_, ?_, ?_, ?_⟩
+            refine ⟨?_, ?_⟩
             · intro e he
               obtain ⟨n, _, hn | hn⟩ := hmem e he
               · rw [hn]; apply encInit_inv; apply hargs; split <;> simp
@@ -407,11 +432,6 @@ theorem msEncInit_inv {fs channels streams coupled : Int} {mapping : List Nat} {
                 rw [hn]
                 obtain ⟨hc, hd⟩ := hI
                 exact ⟨{ hc with lfe := rfl }, { hd with }⟩
-            · intro e he e' he'
-              obtain ⟨n, _, hn | hn⟩ := hmem e he <;> obtain ⟨n', _, hn' | hn'⟩ := hmem e' he' <;>
-                rw [hn, hn'] <;> rfl
-            · intro e0 es _ e he hf
-              obtain ⟨n, _, hn | hn⟩ := hmem e he <;> rw [hn] at hf <;> simp [encInit] at hf
             · by_cases hlt : coupled < streams
               · exact Or.inl hlt
               · right
